@@ -2,6 +2,7 @@
 #ifndef VERIF_JSON_H
 #define VERIF_JSON_H
 #include <string>
+#include <cerrno>
 #include <vector>
 #include <utility>
 #include <cstdio>
@@ -125,7 +126,8 @@ struct Json{
       while(q<e&&((*q>='0'&&*q<='9')||*q=='.'||*q=='e'||*q=='E'||*q=='+'||*q=='-')){ if(*q=='.'||*q=='e'||*q=='E') isint=false; q++; }
       if(q==p) fail("value");
       std::string t(p,q); p=q;
-      if(isint && t.size()<19) return Json((long long)strtoll(t.c_str(),0,10));
+      // integers are kept exact whenever they fit (seeds use up to 63 bits: a value that went through a double would replay another stream)
+      if(isint){ errno=0; long long v=strtoll(t.c_str(),0,10); if(errno!=ERANGE) return Json(v); }
       return Json(strtod(t.c_str(),0));
     }
     std::string str(){
